@@ -541,31 +541,55 @@ def _cvc5(assertions, timeout_ms):
         os.unlink(fn)
 
 
-def solve(assertions, timeout_ms, want_model=True, second=False):
-    """-> (result 'unsat'|'sat'|'unknown', model|None, backend, seconds)"""
-    t0 = time.time()
+def _has_int(assertions):
+    seen = set()
+    stack = list(assertions)
+    while stack:
+        t = stack.pop()
+        if t.get_id() in seen:
+            continue
+        seen.add(t.get_id())
+        if z3.is_expr(t) and t.sort().kind() == z3.Z3_INT_SORT:
+            return True
+        stack.extend(t.children())
+    return False
+
+
+def _z3_default(assertions, timeout_ms):
     s = z3.Solver()
-    s.set('timeout', timeout_ms)
-    s.set('random_seed', int(os.environ.get('VERIF_SEED', '0')) % (2 ** 31))
+    s.set('timeout', int(timeout_ms))
+    s.set('random_seed', int(os.environ.get('VERIF_SEED', '0') or 0) % (2 ** 31))
     s.add(*assertions)
     r = s.check()
-    if r == z3.unsat:
-        return 'unsat', None, 'z3', time.time() - t0
-    if r == z3.sat:
-        return 'sat', s.model(), 'z3', time.time() - t0
-    # second attempt: nlsat pipeline
+    return r, (s.model() if r == z3.sat else None)
+
+
+def _z3_nlsat(assertions, timeout_ms):
     try:
         t = z3.Then('simplify', 'purify-arith', 'solve-eqs', 'qfnra-nlsat')
-        s2 = t.solver()
-        s2.set('timeout', timeout_ms)
-        s2.add(*assertions)
-        r = s2.check()
-        if r == z3.unsat:
-            return 'unsat', None, 'z3-nlsat', time.time() - t0
-        if r == z3.sat:
-            return 'sat', s2.model(), 'z3-nlsat', time.time() - t0
+        s = t.solver()
+        s.set('timeout', int(timeout_ms))
+        s.add(*assertions)
+        r = s.check()
+        return r, (s.model() if r == z3.sat else None)
     except z3.Z3Exception:
-        pass
+        return z3.unknown, None
+
+
+def solve(assertions, timeout_ms, want_model=True, second=False):
+    """-> (result 'unsat'|'sat'|'unknown', model|None, backend, seconds)
+    staged: z3 default (short) -> z3 nlsat pipeline -> z3 default (full budget) -> cvc5"""
+    t0 = time.time()
+    stages = [('z3', _z3_default, min(timeout_ms, 2500))]
+    stages.append(('z3-nlsat', _z3_nlsat, timeout_ms))
+    if timeout_ms > 2500:
+        stages.append(('z3', _z3_default, timeout_ms))
+    for name, f, budget in stages:
+        r, m = f(assertions, budget)
+        if r == z3.unsat:
+            return 'unsat', None, name, time.time() - t0
+        if r == z3.sat:
+            return 'sat', m, name, time.time() - t0
     c = _cvc5(assertions, timeout_ms)
     if c == 'unsat':
         return 'unsat', None, 'cvc5', time.time() - t0
